@@ -23,7 +23,7 @@ PROFILES = {
                   nested=0.15, ctx=0.0, dcal=0.2, dyn=0.75, desc=0.0, arbitrary_names=0.1,
                   criteria_forms=("cmp", "list"), aligned=0.5),
     "flat": dict(max_containers=5, max_depth=2, fanout=4, fields=(1, 6), kinds=("int", "int", "float", "enum", "bool",
-                 "str", "bin", "time", "calint", "lenint"), nested=0.0, ctx=0.2, dcal=0.3, dyn=0.3, desc=0.0,
+                 "str", "bin", "time", "calint", "lenint", "mixedwide"), nested=0.0, ctx=0.2, dcal=0.3, dyn=0.3, desc=0.0,
                  arbitrary_names=0.0, criteria_forms=("cmp",), aligned=0.8, flat=True),
     "lengths": dict(max_containers=4, max_depth=2, fanout=2, fields=(1, 4), kinds=("str", "bin", "bin", "lenint", "int",
                     "float"), nested=0.2, ctx=0.0, dcal=0.15, dyn=0.8, desc=0.0, arbitrary_names=0.1,
@@ -302,12 +302,14 @@ class Gen:
         name = self.fresh("T")
         unit = d(st.sampled_from([None, None, "V", "deg C", "m/s^2", "counts"])) if self.chance(0.4) else None
         pt = {"kind": kind, "name": name, "unit": unit}
-        if kind in ("int", "calint", "lenint", "mixedint"):
+        if kind in ("int", "calint", "lenint", "mixedint", "mixedwide"):
             pt["kind"] = "int"
             enc = self.gen_numeric_enc("int", avail, True, pname, small=(kind in ("lenint", "mixedint")))
+            if kind == "mixedwide":
+                enc["bits"], enc["order"] = d(st.sampled_from([64, 64, 56, 40])), d(st.sampled_from([BE, LE]))
             if kind == "calint":
                 enc["dcal"] = self.gen_cal(True)
-            if kind == "mixedint":
+            if kind in ("mixedint", "mixedwide"):
                 # calibrated only in some contexts: the derived value is a float in some packets and an int in others
                 enc["dcal"] = None
                 ccals = []
@@ -359,7 +361,8 @@ class Gen:
                 keys = d(st.lists(st.integers(lo, hi), min_size=1, max_size=min(6, hi - lo + 1), unique=True))
                 if self.chance(0.7) and hi - lo < 16:
                     keys = list(range(lo, hi + 1))
-                pt["enum"] = [[k, d(st.sampled_from(["ON", "OFF", "IDLE", "SAFE", "L"])) + str(i)] for i, k in enumerate(keys)]
+                pt["enum"] = [[k, d(st.sampled_from(["ON", "OFF", "IDLE", "SAFE", "L", " ON", "ON  "])) + str(i)
+                               + d(st.sampled_from(["", "", "", " ", "  "]))] for i, k in enumerate(keys)]
         elif kind == "bool":
             which = d(st.sampled_from(["int", "int", "int", "float"])) if not self.p.get("small_ints") else "int"
             pt["enc"] = self.gen_numeric_enc(which, avail, True, pname, small=(which == "int"))
@@ -377,7 +380,7 @@ class Gen:
         kind = kind or d(st.sampled_from(list(self.p["kinds"])))
         pname = self.fresh("P")
         if referable is None:
-            referable = kind in ("int", "calint", "lenint", "mixedint", "enum", "bool") or self.chance(0.3)
+            referable = kind in ("int", "calint", "lenint", "mixedint", "mixedwide", "enum", "bool") or self.chance(0.3)
         reuse = [t for t in self.types if t.get("_reusable") and t["kind"] == kind]
         if reuse and self.chance(0.2):
             pt = reuse[d(st.integers(0, len(reuse) - 1))]
